@@ -17,6 +17,16 @@ Observables per generated triangle:
     explicit and with inferred period_resolution = model = original
   * Matrix (month-aligned semi-regular, complete and holey, incl. quarterly periods evaluated
     annually): index, shape, entries = model; matrix_to_triangle(triangle_to_matrix(t)) = original
+  * Rich matrix (io/rich_matrix.py): index, shape and every entry of the object array (plain number with its Python
+    kind, PredictedValue, Disaggregated(Predicted)Value with id, MissingValue with id) = model; Spec on the
+    IMPLEMENTATION's matrix (every cell value at the position plain month arithmetic gives, nothing else but
+    MissingValues numbered 0..n-1) and on rich_matrix_to_triangle(triangle_to_rich_matrix(t)) (exactly the cells holding a
+    value of an index field, kinds / dtypes / shapes kept); the model's reader on the implementation's own matrix
+  * the rest of io/array.py: from_statics_data_frame, to_right_edge_data_frame (+ read back as statics frame),
+    from_array_data_frame with eval_resolution / dev_lag_from_period_end / non-integer labels, array_triangle_builder,
+    parse_date = model, each with an independent Spec clause; triangle_to_matrix with eval_resolution / fields = model
+  * in-memory data frames: column types of the writers, from_*_data_frame(to_*_data_frame(t)) = model (D21)
+  * chainladder round trip: Spec only (third-party package, not modelled)
   * SEQUENCE (state carried between calls in one process): every CSV pair is read by five readers in
     random order — from_wide_csv with field_cols only / detail_cols only (fields inferred) / both,
     from_long_csv, from_long_data_frame(loss_detail_cols) — each checked against model and Spec, so an
@@ -53,11 +63,11 @@ STR_POOL = {
     "reinsurance_basis": [None, "Gross", "Net"],
     "loss_definition": [None, "Loss", "Loss+DCC", "Loss+LAE"],
 }
-LIMITS = [None, 250000, 500000.0, 1e6, 2.5]
+LIMITS = [None, 250000, 500000.0, 1e6, 2.5, 0, 0.0]
 DETAIL_KEYS = ["coverage", "state", "product"]
 LOSS_DETAIL_KEYS = ["peril", "cause"]
 STR_VALUES = ["BI", "PD", "CA", "NY", "a b", "x,y", "Üb"]
-NUM_VALUES = [1, 2, 3, 0.5, 1.5, 10.0]
+NUM_VALUES = [0, 0.0, 0, 1, 2, 3, 0.5, 1.5, 10.0]      # falsy numbers are values too
 ATTRS = list(STR_POOL) + ["per_occurrence_limit", "details", "loss_details"]
 
 
@@ -120,6 +130,7 @@ def rand_csv_cells(rng):
     # "subset" mode: slices share the periods but observe different subsets of the evaluation dates
     # (incremental cells of different slices then share coordinates but not prev_evaluation_date)
     subset = n_slices > 1 and rng.random() < 0.4
+    ragged = rng.random() < 0.6
     for m in metas:
         if rows is None or (not subset and rng.random() < 0.5):
             rows = gen.layout_daily(rng) if layout == "daily" else gen.layout_regular(
@@ -129,7 +140,9 @@ def rand_csv_cells(rng):
             use = [(ps, pe, sorted(rng.sample(evs, rng.randrange(1, len(evs) + 1)))) for ps, pe, evs in rows]
         for c in gen.cells_from_layout(rng, use, m, kind=kind, fields=fields, vkind="int"):
             if stream == "cum-sample":
-                vals = {f: gen.rand_value(rng, "iarr" if fkind[f] == "int" else "farr", n_samples) for f in fields}
+                # ragged: sampled cells need not carry the same fields (a field a cell lacks is empty in every scenario row)
+                fs = ([f for f in fields if rng.random() < 0.7] or fields[:1]) if ragged else fields
+                vals = {f: gen.rand_value(rng, "iarr" if fkind[f] == "int" else "farr", n_samples) for f in fs}
             else:
                 fs = [f for f in fields if rng.random() < 0.8] or fields[:1]
                 vals = {f: gen.rand_value(rng, fkind[f]) for f in fs}
@@ -141,6 +154,24 @@ def rand_csv_cells(rng):
         cells = rng.sample(cells, 24)
     rng.shuffle(cells)
     return stream, how, cells
+
+
+def rename_details(rng, cells):
+    """the same cells with every detail / loss-detail key renamed (a rotation within its key pool): same values, same
+    number of columns, other column names"""
+    def rot(keys):
+        k = rng.randrange(1, len(keys))
+        return {a: keys[(j + k) % len(keys)] for j, a in enumerate(keys)}
+    dm, lm = rot(DETAIL_KEYS), rot(LOSS_DETAIL_KEYS)
+    cache = {}
+    out = []
+    for c in cells:
+        m = c.metadata
+        if m not in cache:
+            cache[m] = dataclasses.replace(m, details={dm[k]: v for k, v in m.details.items()},
+                                           loss_details={lm[k]: v for k, v in m.loss_details.items()})
+        out.append(c.replace(metadata=cache[m]))
+    return out
 
 
 def regular_single_slice(rng, i=None):
@@ -227,6 +258,557 @@ def divmod_ym(mid):
     return y, m + 1
 
 
+
+# ---- rich matrix (io/rich_matrix.py) ---------------------------------------------------------------
+
+def w_rval(x):
+    from bermuda.matrix import DisaggregatedPredictedValue, DisaggregatedValue, MissingValue, PredictedValue
+    if isinstance(x, MissingValue):
+        return ["m", int(x.id)]
+    if isinstance(x, DisaggregatedPredictedValue):
+        return ["D", int(x.id), w_val(x.value)]
+    if isinstance(x, DisaggregatedValue):
+        return ["d", int(x.id), w_val(x.value)]
+    if isinstance(x, PredictedValue):
+        return ["P", w_val(x.value)]
+    return ["p", w_val(x)]
+
+
+def dump_rich(m):
+    ix = m.index
+    ents = [[int(a), int(b), int(c), int(d), w_rval(m.data[a, b, c, d])]
+            for a, b, c, d in np.ndindex(*m.data.shape) if m.data[a, b, c, d] is not None]
+    return {"slices": [w_meta(x) for x in ix.slices], "fields": list(ix.fields),
+            "exp_origin": int(ix.exp_origin), "dev_origin": int(ix.dev_origin),
+            "exp_resolution": int(ix.exp_resolution), "dev_resolution": int(ix.dev_resolution),
+            "shape": [int(x) for x in m.data.shape], "incremental": bool(m.incremental), "entries": ents}
+
+
+def rich_value(rng, arrays=True):
+    r = rng.random()
+    if r < 0.06:
+        return rng.choice([0, 0.0])            # falsy numbers are values, not gaps
+    if r < 0.30:
+        return gen.rand_value(rng, "int")
+    if r < 0.55:
+        return gen.rand_value(rng, "float")
+    if r < 0.65:
+        return None
+    if not arrays:
+        return gen.rand_value(rng, "int")
+    if r < 0.90:
+        return gen.rand_value(rng, rng.choice(["iarr", "farr"]), rng.randrange(2, 4))
+    if r < 0.96:
+        return np.array([float(gen.rand_value(rng, "int"))]) if rng.random() < 0.5 else np.array(gen.rand_value(rng, "int"))
+    return np.array([], dtype=np.float64)
+
+
+def rich_cells(rng):
+    """month-aligned triangle for the rich matrix: `grid` = periods of one length e (complete or holey),
+    `mixed` = some leading periods m*e long then periods e long (disjoint), `overlap` = a long period on
+    top of short ones; cumulative or incremental; values int / float / None / sample arrays / size-1
+    arrays / empty arrays; fields present or absent per cell; 1-3 slices"""
+    mode = rng.choice(["grid", "grid", "grid", "mixed", "mixed", "overlap"])
+    e = rng.choice([1, 3, 6, 12]) if mode == "grid" else rng.choice([1, 3, 6])
+    mult = rng.choice([2, 4]) if e != 6 else 2
+    kind = rng.choice(["U", "U", "C", "I"])
+    style = rng.choice(["lag", "lag", "calendar"]) if kind != "I" else "lag"
+    s = rng.choice([1, 3, 6, 12]) if rng.random() < 0.4 else e
+    y0 = rng.randrange(1995, 2025)
+    m0 = rng.choice(list(range(1, 13, e * mult if mode != "grid" else e)))
+    start = D(y0, m0, 1)
+    rows = []
+    n_coarse = 0 if mode == "grid" else rng.randrange(1, 3)
+    n_fine = rng.randrange(1, 6) if mode != "grid" else rng.randrange(1, 5)
+    cur = start
+    spans = [e * mult] * n_coarse + [e] * n_fine
+    if mode == "overlap":
+        spans = [e] * n_fine
+    for i, span in enumerate(spans):
+        ps = cur
+        pe = gen.add_months_int(ps, span - 1, end=True)
+        cur = gen.add_months_int(ps, span)
+        if style == "lag":
+            n_l = rng.randrange(1, 6)
+            evs = [gen.add_months_int(pe, k * s, end=True) for k in range(n_l)]
+        else:
+            g = rng.choice([6, 12]) if e < 12 else 12
+            first = month_id(pe)
+            first += (-(first + 1)) % g
+            evs = [gen.month_end(*divmod_ym(first + k * g)) for k in range(rng.randrange(1, 4))]
+        rows.append((ps, pe, evs))
+    if mode == "overlap":
+        ps = start
+        pe = gen.add_months_int(ps, e * min(mult, max(n_fine, 2)) - 1, end=True)
+        rows.append((ps, pe, [gen.add_months_int(pe, k * s, end=True) for k in range(rng.randrange(1, 3))]))
+    holey = rng.random() < 0.4
+    metas, _ = rand_metas(rng, rng.choice([1, 1, 2, 3]))
+    fields = rng.sample(gen.FIELDS, rng.randrange(1, 4))
+    arrays = rng.random() < 0.6
+    cells = []
+    for m in metas:
+        for c in gen.cells_from_layout(rng, rows, m, kind=kind, fields=fields, vkind="int"):
+            if holey and rng.random() < 0.3:
+                continue
+            fs = [f for f in fields if rng.random() < 0.8]
+            if not fs and rng.random() < 0.8:
+                fs = fields[:1]
+            cells.append(c.replace(values={f: rich_value(rng, arrays) for f in fs}))
+    return {"mode": mode, "e": e, "kind": kind, "style": style, "holey": holey, "fields": fields}, cells
+
+
+def rich_options(rng, t, fields):
+    """(eval_resolution, fields) arguments; None = leave out"""
+    r = rng.random()
+    if r < 0.55:
+        ev = None
+    elif r < 0.65:
+        ev = 0
+    else:
+        ev = rng.choice([1, 3, 6, 12])
+    r = rng.random()
+    pool = sorted({k for c in t.cells for k in c.values}) or list(fields)
+    if r < 0.55:
+        fs = None
+    elif r < 0.80:
+        fs = rng.sample(pool, rng.randrange(1, len(pool) + 1))
+    elif r < 0.90:
+        fs = rng.sample(pool, rng.randrange(1, len(pool) + 1)) + ["case_reserve"]
+        rng.shuffle(fs)
+    elif r < 0.95:
+        fs = []
+    else:
+        fs = ["case_reserve"]
+    return ev, fs
+
+
+def rich_domain(t, ix):
+    """independent description of where the rich matrix can hold the triangle: every period ONE index
+    period long and starting on the index grid, lags on the development grid (step min(exp, dev));
+    for incremental cells the previous evaluation date one step earlier (the period start's eve for
+    the first). `mixed`: periods pairwise disjoint, all on the period grid, lags on the grid."""
+    exp, dev = ix["exp_resolution"], ix["dev_resolution"]
+    step = min(exp, dev)
+    if exp <= 0 or step <= 0:
+        return {"grid": False, "mixed": False, "prev": False}
+    on_p = all((month_id(c.period_start) - ix["exp_origin"]) % exp == 0 and
+               (month_id(c.period_end) + 1 - ix["exp_origin"]) % exp == 0 for c in t)
+    lags = [month_id(c.evaluation_date) - month_id(c.period_end) for c in t]
+    on_d = all((x - ix["dev_origin"]) % step == 0 and x >= ix["dev_origin"] for x in lags)
+    single = all(month_id(c.period_end) - month_id(c.period_start) + 1 == exp for c in t)
+    per = sorted({c.period for c in t})
+    disjoint = all(a[1] < b[0] for a, b in zip(per, per[1:]))
+    prev = True
+    if t.is_incremental:
+        for c, lag in zip(t, lags):
+            k = (lag - ix["dev_origin"]) // step
+            want = (c.period_start - datetime.timedelta(days=1) if k == 0
+                    else gen.add_months_int(c.period_end, lag - step, end=True))
+            prev = prev and c.prev_evaluation_date == want
+    return {"grid": on_p and on_d and single, "mixed": on_p and on_d and disjoint, "prev": prev}
+
+
+def rich_stream(ctx, rng, n, reqs, info):
+    import warnings
+    from bermuda.io.rich_matrix import rich_matrix_to_triangle, triangle_to_rich_matrix
+    prev_t = None
+    for i in range(n):
+        desc, cells = rich_cells(rng)
+        if not cells:
+            continue
+        t = Triangle(cells)
+        wire = w_cells(t.cells)
+        ev, fs = rich_options(rng, t, desc["fields"])
+        kw = {}
+        if ev is not None:
+            kw["eval_resolution"] = ev
+        if fs is not None:
+            kw["fields"] = list(fs)
+        ctx.count(f"rich/{desc['mode']}/{desc['kind']}")
+        ctx.count("rich/options: " + (", ".join(sorted(kw)) or "defaults"))
+        ctx.case(digest=json.dumps(["rich", [canon_cell(w) for w in wire], ev, fs], sort_keys=True), nontrivial=len(t) > 1,
+                 sample={"stream": "rich", **{k: v for k, v in desc.items() if k != "fields"}, "cells": len(t)} if i < 2 else None)
+        case = {"cells": wire, "eval_resolution": ev, "fields": fs, **{k: v for k, v in desc.items() if k != "fields"}}
+        # accessors read BEFORE the call (cached on the triangle)
+        pre = (list(t.fields), [w_meta(m) for m in t.metadata], list(t.periods), bool(t.is_incremental))
+        with warnings.catch_warnings():
+            warnings.simplefilter("ignore")
+            if prev_t is not None and rng.random() < 0.3:
+                # priming: the same function on a DIFFERENT triangle with other options, in this process
+                call(triangle_to_rich_matrix, prev_t, eval_resolution=rng.choice([None, 1, 3]),
+                     fields=rng.choice([None, list(prev_t.fields[:1])]) or None)
+                ctx.count("sequence/rich primed by another triangle")
+            st, m = call(triangle_to_rich_matrix, t, **kw)
+            if st == "ok" and rng.random() < 0.3:
+                # sequence: wipe the returned object array, convert the wiped matrix, then ask again
+                snap = dump_rich(m)
+                m.data[...] = None
+                call(rich_matrix_to_triangle, m)
+                st, m = call(triangle_to_rich_matrix, t, **kw)
+                ctx.count("sequence/rich matrix asked twice")
+                if st != "ok" or dump_rich(m) != snap:
+                    ctx.fail("triangle_to_rich_matrix: a second call (after wiping the first result in place) differs", case)
+                    continue
+            if st == "ok":
+                mat = {"ok": dump_rich(m)}
+                back_res = call(rich_matrix_to_triangle, m)
+                back = dump(back_res)
+                if back_res[0] == "ok" and rng.random() < 0.3:
+                    b2 = dump(call(rich_matrix_to_triangle, m))
+                    ctx.count("sequence/rich matrix read twice")
+                    if b2 != back:
+                        ctx.fail("rich_matrix_to_triangle: a second call on the same matrix differs", case)
+                if back_res[0] == "ok":
+                    out_t = back_res[1]
+                    acc = (sorted({k for c in out_t.cells for k in c.values}) == list(out_t.fields)
+                           and len({c.metadata for c in out_t.cells}) == len(out_t.metadata)
+                           and sorted({c.period for c in out_t.cells}) == list(out_t.periods))
+                    if not acc:
+                        ctx.fail("rich_matrix_to_triangle: accessors of the result differ from its cells", case)
+                ctx.count(f"rich/exp={m.index.exp_resolution} dev={m.index.dev_resolution}")
+            else:
+                mat, back = {"err": m}, {"err": m}
+                ctx.count(f"rich/refused {m}")
+        if w_cells(t.cells) != wire or pre != (list(t.fields), [w_meta(x) for x in t.metadata], list(t.periods),
+                                               bool(t.is_incremental)):
+            ctx.fail("triangle_to_rich_matrix changed the triangle or its accessors", case)
+        dom = rich_domain(t, mat["ok"]) if "ok" in mat else {"grid": False, "mixed": False, "prev": False}
+        for k, v in dom.items():
+            if v:
+                ctx.count(f"rich/domain {k}")
+        reqs.append({"op": "rich", "cells": wire, "eval_resolution": ev, "fields": fs,
+                     "impl_matrix": mat.get("ok"), "impl_back": back.get("ok")})
+        info.append(("rich", case, mat, (back, dom)))
+        prev_t = t
+
+
+def matrix_opt_stream(ctx, rng, n, reqs, info):
+    import warnings
+    for i in range(n):
+        desc, cells = matrix_cells(rng)
+        if not cells:
+            continue
+        t = Triangle(cells)
+        wire = w_cells(t.cells)
+        ev, fs = rich_options(rng, t, sorted({k for c in t.cells for k in c.values}))
+        if ev is None and fs is None:
+            ev = rng.choice([1, 3, 6, 12])
+        kw = {}
+        if ev is not None:
+            kw["eval_resolution"] = ev
+        if fs is not None:
+            kw["fields"] = list(fs)
+        ctx.count("matrix options/" + ", ".join(sorted(kw)))
+        ctx.case(digest=json.dumps(["matrix_opt", [canon_cell(w) for w in wire], ev, fs], sort_keys=True), nontrivial=len(t) > 1)
+        case = {"cells": wire, "eval_resolution": ev, "fields": fs}
+        with warnings.catch_warnings():
+            warnings.simplefilter("ignore")
+            st, m = call(triangle_to_matrix, t, **kw)
+        if st == "ok":
+            ix = m.index
+            ents = sorted([int(a), int(b), int(c), int(d), w_rat(float(m.data[a, b, c, d]))]
+                          for a, b, c, d in zip(*np.where(~np.isnan(m.data))))
+            mat = {"ok": {"slices": [w_meta(x) for x in ix.slices], "fields": list(ix.fields),
+                          "exp_origin": int(ix.exp_origin), "dev_origin": int(ix.dev_origin),
+                          "exp_resolution": int(ix.exp_resolution), "dev_resolution": int(ix.dev_resolution),
+                          "shape": [int(x) for x in m.data.shape], "incremental": bool(m.incremental), "entries": ents}}
+            back = dump(call(matrix_to_triangle, m))
+        else:
+            mat, back = {"err": m}, {"err": m}
+        reqs.append({"op": "matrix_opt", "cells": wire, "eval_resolution": ev, "fields": fs})
+        info.append(("matrix_opt", case, mat, back))
+
+
+# ---- the rest of io/array.py: statics frame, right-edge frame, all arguments of the array frame ----
+
+def spell_period(rng, d, res):
+    """the period as a caller may write it: a date, or one of the documented strings"""
+    r = rng.random()
+    if r < 0.5:
+        return d, ["d", w_date(d)]
+    forms = ["%04d-%02d-%02d" % (d.year, d.month, d.day), "%04d-%02d" % (d.year, d.month)]
+    if d.month == 1:
+        forms.append("%04d" % d.year)
+    if d.month % 3 == 1:
+        forms.append("%04dQ%d" % (d.year, (d.month - 1) // 3 + 1))
+    if d.month in (1, 7):
+        forms.append("%04dH%d" % (d.year, 1 if d.month == 1 else 2))
+    txt = rng.choice(forms)
+    if rng.random() < 0.1:
+        txt = " " + txt + " "
+    return txt, ["s", txt]
+
+
+def period_starts(rng, i, res=None):
+    res = res or [1, 3, 6, 12][i % 4]
+    m = (i // 4) % 12 + 1                      # every start month, deterministically
+    start = D(rng.randrange(1995, 2025), m, 1)
+    n = rng.randrange(2, 6) if rng.random() < 0.9 else 1
+    return res, [gen.add_months_int(start, k * res) for k in range(n)]
+
+
+def statics_stream(ctx, rng, n, reqs, info):
+    for i in range(n):
+        res, starts = period_starts(rng, i)
+        fields = rng.sample(gen.FIELDS, rng.randrange(1, 4))
+        style = rng.random() < 0.5
+        spelled = [spell_period(rng, d, res) if style else (d, ["d", w_date(d)]) for d in starts]
+        data = {"period": [x[0] for x in spelled]}
+        for f in fields:
+            k = rng.choice(["int", "float"])
+            data[f] = [gen.rand_value(rng, k) for _ in starts]
+        df = pd.DataFrame(data)
+        if rng.random() < 0.2:
+            df = df.rename(columns={"period": "accident_period"})
+        kw = {}
+        if rng.random() < 0.5:
+            kw["period_resolution"] = res
+        if rng.random() < 0.5:
+            last_end = gen.add_months_int(starts[-1], res - 1, end=True)
+            kw["evaluation_date"] = gen.add_months_int(last_end, rng.randrange(0, 25), end=True)
+        md = None
+        if rng.random() < 0.5:
+            md = rand_metas(rng, 1)[0][0]
+            kw["metadata"] = md
+        ctx.count(f"statics/res={res}" + ("" if "period_resolution" in kw else " (inferred)"))
+        rows = [[sp[1], [[f, w_val(data[f][j])] for f in fields]] for j, sp in enumerate(spelled)]
+        ctx.case(digest=json.dumps(["statics", rows, {k: str(v) for k, v in kw.items()}], sort_keys=True), nontrivial=True,
+                 sample={"stream": "statics", "res": res, "rows": len(starts), "args": sorted(kw)} if i < 1 else None)
+        case = {"rows": rows, "args": {k: str(v) for k, v in kw.items()}}
+        snap = df.copy()
+        impl = dump(call(Triangle.from_statics_data_frame, df, **kw))
+        if not snap.equals(df) or list(snap.columns) != list(df.columns):
+            ctx.fail("from_statics_data_frame changed the caller's frame", case)
+        if rng.random() < 0.3:
+            ctx.count("sequence/statics frame read twice")
+            if dump(call(Triangle.from_statics_data_frame, df, **kw)) != impl:
+                ctx.fail("from_statics_data_frame: a second call on the same frame differs", case)
+        spec_res = kw.get("period_resolution", month_id(starts[1]) - month_id(starts[0]) if len(starts) > 1 else None)
+        if "period_resolution" not in kw and len(starts) > 1 and (starts[1] - starts[0]).days // 30 != spec_res:
+            # D20 (domain note, not a C14 clause): the reader infers `days // 30` — 0 for a monthly February start, 2 for
+            # quarterly periods from 1 February of a non-leap year. Compared with the model only.
+            ctx.count("statics/inferred resolution: days // 30 is not the month distance (model only, no Spec)")
+            spec_res = None
+        reqs.append({"op": "statics", "cells": [], "rows": rows, "evaluation": w_date(kw.get("evaluation_date")),
+                     "res": kw.get("period_resolution"), "md": w_meta(md or Metadata()), "impl": impl, "spec_res": spec_res})
+        info.append(("statics", case, impl, None))
+
+
+def is_nan(x):
+    return isinstance(x, (float, np.floating)) and x != x
+
+
+def right_edge_stream(ctx, rng, n, reqs, info):
+    for i in range(n):
+        res, fields, md, cells = regular_single_slice(rng, i)
+        variant = rng.choice(["plain"] * 6 + ["two-slices", "incremental", "arrays", "ragged-fields"])
+        if variant == "two-slices":
+            other = rand_metas(rng, 2)[0][1]
+            cells = cells + [c.replace(metadata=other) for c in cells[:2]]
+        elif variant == "incremental":
+            rows = gen.layout_regular(rng, res=res, n_periods=2, n_lags=2)
+            cells = gen.cells_from_layout(rng, rows, md, kind="I", fields=fields, vkind="int")
+        elif variant == "arrays":
+            cells = [c.replace(values={f: gen.rand_value(rng, "farr", 3) for f in c.values}) for c in cells]
+        elif variant == "ragged-fields":
+            cells = [c.replace(values={f: v for f, v in c.values.items() if rng.random() < 0.7} or dict(c.values)) for c in cells]
+        t = Triangle(cells)
+        wire = w_cells(t.cells)
+        ctx.count(f"right edge/{variant}")
+        ctx.case(digest=json.dumps(["right_edge", [canon_cell(w) for w in wire]], sort_keys=True), nontrivial=len(t) > 1)
+        case = {"cells": wire, "variant": variant}
+        st, df = call(t.to_right_edge_data_frame)
+        if st == "ok" and rng.random() < 0.3:
+            snap = df.copy()
+            df.iloc[:, 2:] = 0
+            st, df = call(t.to_right_edge_data_frame)
+            ctx.count("sequence/right-edge frame asked twice")
+            if st != "ok" or not snap.equals(df):
+                ctx.fail("to_right_edge_data_frame: a second call (after editing the first result in place) differs", case)
+                continue
+        req = {"op": "right_edge", "cells": wire, "md": w_meta(md), "res": res, "evaluation": None}
+        impl_rows, back = None, None
+        if st == "ok":
+            impl_rows = []
+            for _, row in df.iterrows():
+                ents = [[c, w_val(row[c].item() if isinstance(row[c], np.generic) else row[c])]
+                        for c in df.columns[2:] if not is_nan(row[c]) and row[c] is not None]
+                impl_rows.append([w_date(row["period"]), w_date(row["evaluation_date"]), ents])
+            evs = sorted(set(df["evaluation_date"]))
+            whole = len(df) > 0 and not any(is_nan(x) or x is None for c in df.columns[2:] for x in df[c])
+            if len(evs) == 1 and whole and variant != "arrays":
+                # the frame without its evaluation column is a statics frame: read it back
+                req["evaluation"] = w_date(evs[0])
+                back = dump(call(Triangle.from_statics_data_frame, df.drop(columns=["evaluation_date"]),
+                                 evaluation_date=evs[0], period_resolution=res, metadata=md))
+                ctx.count("right edge/read back as statics frame")
+                req["impl_back"] = back
+            req["impl_rows"] = impl_rows
+        reqs.append(req)
+        info.append(("right_edge", case, {"ok": impl_rows} if st == "ok" else {"err": df}, back))
+
+
+def array_frame(rng, i, field_kind=None):
+    res, starts = period_starts(rng, i)
+    n_cols = rng.randrange(1, 6)
+    label_kind = rng.choice(["int-str", "int-str", "int", "name"])
+    step = rng.choice([res, res, 1, 3, 6, 12])
+    first = rng.choice([0, 0, step])
+    lags = [first + k * step for k in range(n_cols)]
+    labels = ([str(x) for x in lags] if label_kind == "int-str" else list(lags) if label_kind == "int"
+              else [f"dev_{k + 1}" for k in range(n_cols)])
+    shape = rng.choice(["square", "triangle", "holey"])
+    fk = field_kind or rng.choice(["int", "float"])
+    grid = []
+    for r in range(len(starts)):
+        row = []
+        for k in range(n_cols):
+            gone = (shape == "triangle" and k >= n_cols - r and k > 0) or (shape == "holey" and rng.random() < 0.25)
+            row.append(float("nan") if gone else gen.rand_value(rng, fk))
+        grid.append(row)
+    return res, starts, labels, grid
+
+
+def frame_of(rng, starts, res, labels, grid, style):
+    spelled = [spell_period(rng, d, res) if style else (d, ["d", w_date(d)]) for d in starts]
+    df = pd.DataFrame({"period": [x[0] for x in spelled], **{lab: [row[k] for row in grid] for k, lab in enumerate(labels)}})
+    wire = {"cols": [str(x) for x in labels],
+            "rows": [[sp[1], [None if is_nan(v) else w_val(v) for v in row]] for sp, row in zip(spelled, grid)]}
+    return df, wire
+
+
+def array_kwargs(rng, res, labels):
+    kw = {}
+    if rng.random() < 0.5:
+        kw["period_resolution"] = res
+    if rng.random() < 0.3:
+        kw["eval_resolution"] = rng.choice([1, 3, 6, 12])
+    if rng.random() < 0.3:
+        kw["dev_lag_from_period_end"] = rng.random() < 0.3
+    md = None
+    if rng.random() < 0.5:
+        md = rand_metas(rng, 1)[0][0]
+        kw["metadata"] = md
+    return kw, md
+
+
+def array_full_stream(ctx, rng, n, reqs, info):
+    import warnings
+    from bermuda.io.array import array_triangle_builder
+    for i in range(n):
+        res, starts, labels, grid = array_frame(rng, i)
+        kw, md = array_kwargs(rng, res, labels)
+        builder = rng.random() < 0.3
+        style = rng.random() < 0.4
+        spec_res = kw.get("period_resolution", month_id(starts[1]) - month_id(starts[0]) if len(starts) > 1 else None)
+        base = {"cells": [], "md": w_meta(md or Metadata()), "res": kw.get("period_resolution"),
+                "eval_res": kw.get("eval_resolution"), "from_end": kw.get("dev_lag_from_period_end"), "spec_res": spec_res}
+        with warnings.catch_warnings():
+            warnings.simplefilter("ignore")
+            if not builder:
+                field = rng.choice(gen.FIELDS)
+                df, wire = frame_of(rng, starts, res, labels, grid, style)
+                ctx.count("array frame/args: " + (", ".join(sorted(k for k in kw if k != "metadata")) or "defaults"))
+                ctx.count(f"array frame/labels {'integers' if not str(labels[0]).startswith('dev') else 'names'}")
+                ctx.case(digest=json.dumps(["array_full", wire, field, {k: str(v) for k, v in kw.items()}], sort_keys=True),
+                         nontrivial=True)
+                case = {"frame": wire, "field": field, "args": {k: str(v) for k, v in kw.items()}}
+                snap = df.copy()
+                impl = dump(call(Triangle.from_array_data_frame, df, field, **kw))
+                if not snap.equals(df) or list(snap.columns) != list(df.columns):
+                    ctx.fail("from_array_data_frame changed the caller's frame", case)
+                reqs.append({"op": "array_full", "frame": wire, "field": field, "impl": impl, **base})
+                info.append(("array_full", case, impl, None))
+            else:
+                n_f = rng.randrange(1, 4)
+                fields = rng.sample(gen.FIELDS, n_f)
+                if n_f > 1 and rng.random() < 0.3:
+                    fields[-1] = fields[0]                 # the same field twice: the later frame wins
+                dfs, wires = [], []
+                for _ in range(n_f):
+                    g2 = [[float("nan") if (is_nan(v) and rng.random() < 0.7) or rng.random() < 0.1 else gen.rand_value(rng, "int")
+                           for v in row] for row in grid]
+                    df, wire = frame_of(rng, starts, res, labels, g2, style)
+                    dfs.append(df)
+                    wires.append(wire)
+                if rng.random() < 0.1:
+                    fields = fields + ["case_reserve"]     # lengths differ: ValueError
+                ctx.count(f"array builder/frames={len(dfs)}")
+                ctx.case(digest=json.dumps(["builder", wires, fields, {k: str(v) for k, v in kw.items()}], sort_keys=True),
+                         nontrivial=True)
+                case = {"frames": wires, "fields": fields, "args": {k: str(v) for k, v in kw.items()}}
+                impl = dump(call(array_triangle_builder, dfs, fields, **kw))
+                reqs.append({"op": "builder", "frames": wires, "fields": fields, "impl": impl, **base})
+                info.append(("builder", case, impl, None))
+
+
+PARSE_TEXTS = ["2020", "1999", "2020Q1", "2020Q2", "2020Q3", "2020Q4", "2021H1", "2021H2", "2020-05-01", "2020-12-31",
+               "2020-02-29", "2021-07", " 2020Q1 ", "2020H1 ", "2020H3", "abc", "2021-02-30", "2020Q5", "20201"]
+
+
+def parse_date_stream(ctx, rng, reqs, info):
+    from bermuda.io.array import parse_date
+    texts = list(PARSE_TEXTS)
+    for _ in range(20):
+        y, m = rng.randrange(1990, 2031), rng.randrange(1, 13)
+        texts += ["%04d" % y, "%04dQ%d" % (y, (m - 1) // 3 + 1), "%04dH%d" % (y, 1 + (m > 6)), "%04d-%02d" % (y, m),
+                  "%04d-%02d-%02d" % (y, m, rng.randrange(1, 29))]
+    impl = []
+    for s in texts:
+        st, v = call(parse_date, s)
+        impl.append({"ok": w_date(v)} if st == "ok" and v is not None else {"err": v if st != "ok" else "None"})
+    ctx.count("parse_date/texts", len(texts))
+    ctx.case(digest=json.dumps(["parse_date", texts]), nontrivial=True)
+    reqs.append({"op": "parse_date", "cells": [], "texts": texts})
+    info.append(("parse_date", {"texts": texts}, impl, None))
+
+
+# ---- chainladder (third-party package, NOT modelled: Spec on the implementation's round trip only) ----
+
+def chain_ladder_stream(ctx, rng, n, reqs, info):
+    try:
+        import chainladder  # noqa: F401
+    except Exception:  # noqa: BLE001
+        ctx.count("chain ladder/package not importable (skipped)")
+        return
+    import warnings
+    from bermuda.io.chain_ladder import chain_ladder_to_triangle, triangle_to_chain_ladder
+    for i in range(n):
+        res = [12, 3, 1][i % 3]
+        rows = gen.layout_regular(rng, res=res, n_periods=rng.randrange(2, 5), n_lags=rng.randrange(2, 5),
+                                  shape=rng.choice(["square", "triangle"]))
+        n_fields = 1 if rng.random() < 0.75 else 2
+        fields = rng.sample(gen.FIELDS, n_fields)
+        cells = gen.cells_from_layout(rng, rows, Metadata(), kind=rng.choice(["C", "U"]), fields=fields,
+                                      vkind=rng.choice(["int", "float"]))
+        # chainladder keeps a cumulative triangle's cells up to the latest diagonal: values must be positive
+        cells = [c.replace(values={k: v + 1 for k, v in c.values.items()}) for c in cells]
+        t = Triangle(cells)
+        wire = w_cells(t.cells)
+        ctx.count(f"chain ladder/res={res} fields={n_fields}")
+        ctx.case(digest=json.dumps(["chain_ladder", [canon_cell(w) for w in wire]], sort_keys=True), nontrivial=True)
+        case = {"cells": wire, "res": res}
+        with warnings.catch_warnings():
+            warnings.simplefilter("ignore")
+            st, cl = call(triangle_to_chain_ladder, t)
+            back = dump(call(chain_ladder_to_triangle, cl)) if st == "ok" else {"err": cl}
+        if st == "ok" and {"Y": 12, "Q": 3, "M": 1}.get(getattr(cl, "origin_grain", None)) != res:
+            # the chainladder object carries period STARTS only; the period length is what chainladder infers as
+            # its origin grain (third-party behaviour, e.g. "M" for some quarterly triangles): outside the Spec
+            ctx.count("chain ladder/chainladder inferred another origin grain (no Spec)")
+            continue
+        if "err" in back:
+            if n_fields > 1 and back["err"] == "KeyError":
+                # observation D22 (not a clause of C14): a one-slice chainladder triangle with several columns is
+                # read through the one-column branch (`melt(id_vars="index")`) and raises KeyError
+                ctx.count("chain ladder/one slice, several fields: KeyError (observation D22)")
+                continue
+            ctx.fail(f"chain ladder round trip raised {back['err']}", case)
+            continue
+        reqs.append({"op": "back_spec", "cells": wire, "impl_back": back})
+        info.append(("chain_ladder", case, back, None))
+
+
 # ---- CSV text -> table wire (independent reader: the csv module) -----------------------------------
 
 DATE_COLS = {"period_start", "period_end", "evaluation_date", "prev_evaluation_date"}
@@ -287,7 +869,16 @@ def canon_num_cells(ws, merge_loss=False):
 
 def dump(res):
     st, v = res
-    return {"ok": w_cells(v.cells)} if st == "ok" else {"err": v}
+    if st != "ok":
+        return {"err": v}
+    try:
+        return {"ok": w_cells(v.cells)}
+    except Exception as e:  # noqa: BLE001
+        # a result the wire form cannot carry (e.g. np.array([None, None], dtype=object) as a cell value, D24) is an
+        # observable of the implementation, not a harness failure
+        bad = next(((k, repr(x)) for c in v.cells for k, x in c.values.items()
+                    if isinstance(x, np.ndarray) and x.dtype == object), None)
+        return {"err": f"a result with a non-numeric cell value {bad} ({type(e).__name__})"}
 
 
 def same(model, impl, merge_model=False):
@@ -309,8 +900,18 @@ def correspondence(ctx):
     with tempfile.TemporaryDirectory(prefix="verif-c14-") as td:
         wide_p, long_p = os.path.join(td, "w.csv"), os.path.join(td, "l.csv")
         # (i) wide and long CSV
+        pending_twin = None
         for i in range(n_csv):
-            stream, how, cells = rand_csv_cells(rng)
+            if pending_twin is not None:
+                # sequence: the previous triangle again, its detail / loss-detail columns under OTHER names (same values):
+                # two loads in one process whose files differ in column names only
+                stream, how, cells = pending_twin
+                pending_twin = None
+                ctx.count("sequence/csv: previous triangle with renamed detail columns")
+            else:
+                stream, how, cells = rand_csv_cells(rng)
+                if rng.random() < 0.3 and any(c.metadata.details or c.metadata.loss_details for c in cells):
+                    pending_twin = (stream, how, rename_details(rng, cells))
             t = Triangle(cells)
             wire = w_cells(t.cells)
             fields = sorted({k for c in t.cells for k in c.values})
@@ -359,6 +960,27 @@ def correspondence(ctx):
             rng.shuffle(readers)
             if rng.random() < 0.2 and readers:
                 readers.append(readers[0])          # the same reader once more
+            # the in-memory frames (no CSV text): column types the writers produce, and the readers on them
+            def date_dtypes(df):
+                out = {}
+                for c in ("period_start", "period_end", "evaluation_date", "prev_evaluation_date"):
+                    if c in df.columns:
+                        out[c] = ("datetime64" if pd.api.types.is_datetime64_any_dtype(df[c]) else
+                                  "period" if isinstance(df[c].dtype, pd.PeriodDtype) else "dates")
+                return out
+            if rng.random() < 0.5:
+                st_wf, wf = call(t.to_wide_data_frame)
+                st_lf, lf = call(t.to_long_data_frame)
+                if st_wf == "ok" and st_lf == "ok":
+                    fdc = [c for c in wf.columns if c in det_keys or c in ldet_keys]
+                    iw = dump(call(Triangle.from_wide_data_frame, wf.copy(), field_cols=sorted(fields),
+                                   loss_detail_cols=list(ldet_keys)))
+                    il = dump(call(Triangle.from_long_data_frame, lf.copy(), loss_detail_cols=list(ldet_keys)))
+                    ctx.count("data frame (no CSV)/wide " + ("read back" if "ok" in iw else "refused " + iw["err"]))
+                    ctx.count("data frame (no CSV)/long " + ("read back" if "ok" in il else "refused " + il["err"]))
+                    reqs.append({"op": "frame_roundtrip", "cells": wire, "field_cols": sorted(fields), "detail_cols": fdc,
+                                 "loss_detail_cols": ldet_keys, "impl_wide": iw})
+                    info.append(("frame", case, (iw, il), (date_dtypes(wf), date_dtypes(lf))))
             first_wide = True
             for name, kw in readers:
                 ctx.count(f"csv reader/{name}")
@@ -468,6 +1090,17 @@ def correspondence(ctx):
             reqs.append({"op": "matrix", "cells": wire, "impl_back": back.get("ok")})
             info.append(("matrix" if desc["representable"] else "matrix-offgrid", case, mat, back))
 
+        # (iv) rich matrix, (v) Matrix with eval_resolution / fields arguments
+        rich_stream(ctx, rng, 1500 if ctx.thorough else 120, reqs, info)
+        matrix_opt_stream(ctx, rng, 400 if ctx.thorough else 30, reqs, info)
+
+        # (vi) statics frame, right-edge frame, array frame with all arguments, builder, parse_date
+        statics_stream(ctx, rng, 600 if ctx.thorough else 48, reqs, info)
+        right_edge_stream(ctx, rng, 400 if ctx.thorough else 30, reqs, info)
+        array_full_stream(ctx, rng, 900 if ctx.thorough else 60, reqs, info)
+        parse_date_stream(ctx, rng, reqs, info)
+        chain_ladder_stream(ctx, rng, 150 if ctx.thorough else 12, reqs, info)
+
         outs = drv.run(reqs)
 
     for (kind, case, impl_a, impl_b), req, out in zip(info, reqs, outs):
@@ -521,6 +1154,107 @@ def correspondence(ctx):
                 ctx.disagree("from_array_data_frame(period_resolution=res)", case, out["back_explicit"], exp)
             if not same(out["back_inferred"], inf):
                 ctx.disagree("from_array_data_frame(inferred resolution)", case, out["back_inferred"], inf)
+        elif kind in ("statics", "array_full", "builder"):
+            impl = impl_a
+            what = {"statics": "from_statics_data_frame", "array_full": "from_array_data_frame (all arguments)",
+                    "builder": "array_triangle_builder"}[kind]
+            if ("err" in out["back"]) != ("err" in impl) or ("err" in impl and out["back"]["err"] != impl["err"]):
+                ctx.disagree(f"{what} accepts/refuses (error class)", case, out["back"], impl)
+            elif "ok" in impl:
+                if not same(out["back"], impl):
+                    ctx.disagree(what, case, out["back"], impl)
+                if out["spec"] is False:
+                    ctx.fail(f"{what}: the triangle is not the one the frame stands for", case, {"loaded": impl["ok"]})
+        elif kind == "right_edge":
+            rows, back = impl_a, impl_b
+            mf = out["frame"]
+            if ("err" in mf) != ("err" in rows) or ("err" in mf and mf["err"] != rows["err"]):
+                ctx.disagree("to_right_edge_data_frame accepts/refuses (error class)", case, mf, rows)
+            elif "ok" in mf:
+                a = [[p, e, sorted([k, num_canon(v)] for k, v in es if v is not None)] for p, e, es in mf["ok"]]
+                b = [[p, e, sorted([k, num_canon(v)] for k, v in es)] for p, e, es in rows["ok"]]
+                if a != b:
+                    ctx.disagree("to_right_edge_data_frame rows", case, a, b)
+                if out["spec"] is False:
+                    ctx.fail("right-edge frame: not one row per period with the latest evaluation of that period", case,
+                             {"rows": rows["ok"]})
+                if back is not None:
+                    if "err" in back:
+                        ctx.fail(f"right-edge frame read back as statics frame raised {back['err']}", case)
+                    else:
+                        if not same(out["back"], back):
+                            ctx.disagree("from_statics_data_frame(to_right_edge_data_frame(t) without evaluation_date)", case,
+                                         out["back"], back)
+                        if out["back_spec"] is False:
+                            ctx.fail("right-edge frame read back as statics frame: not the latest cell of every period", case,
+                                     {"loaded": back["ok"]})
+        elif kind == "parse_date":
+            for s_, a, b in zip(case["texts"], out["dates"], impl_a):
+                if ("err" in a) != ("err" in b) or ("ok" in a and a["ok"] != b["ok"]) or \
+                        ("err" in a and b["err"] != "ValueError"):
+                    ctx.disagree(f"parse_date({s_!r})", {"text": s_}, a, b)
+        elif kind == "frame":
+            (iw, il), (dw, dl) = impl_a, impl_b
+            if out["wide_dtypes"] != dw:
+                ctx.disagree("to_wide_data_frame: types of the date columns", case, out["wide_dtypes"], dw)
+            if out["long_dtypes"] != dl:
+                ctx.disagree("to_long_data_frame: types of the date columns", case, out["long_dtypes"], dl)
+            for nm, m_, i_ in (("wide", out["wide"], iw), ("long", out["long"], il)):
+                if ("err" in m_) != ("err" in i_) or ("err" in m_ and m_["err"] != i_["err"]):
+                    ctx.disagree(f"from_{nm}_data_frame(to_{nm}_data_frame(t)) accepts/refuses (error class)", case, m_, i_)
+                elif "ok" in m_ and not same(m_, i_):
+                    ctx.disagree(f"from_{nm}_data_frame(to_{nm}_data_frame(t))", case, m_, i_)
+            if "ok" in iw and out["spec_wide"] is False:
+                ctx.fail("wide data frame (no CSV): write then read is not the original triangle", case, {"loaded": iw["ok"]})
+        elif kind == "chain_ladder":
+            if out["spec"] is False:
+                ctx.fail("chain ladder round trip (one slice, one field, default metadata) is not the original triangle", case,
+                         {"loaded": impl_a["ok"]})
+        elif kind == "rich":
+            mat, (back, dom) = impl_a, impl_b
+            mm = out["matrix"]
+            if ("err" in mm) != ("err" in mat) or ("err" in mm and mm["err"] != mat["err"]):
+                ctx.disagree("triangle_to_rich_matrix accepts/refuses (error class)", case, mm, mat)
+            elif "ok" in mm:
+                if mm["ok"] != mat["ok"]:
+                    a, b = mm["ok"], mat["ok"]
+                    ctx.disagree("triangle_to_rich_matrix (index, shape, entries)", case,
+                                 {k: v for k, v in a.items() if b.get(k) != v}, {k: v for k, v in b.items() if a.get(k) != v})
+                if "err" in back:
+                    ctx.fail(f"rich_matrix_to_triangle raised {back['err']} on triangle_to_rich_matrix's output", case)
+                else:
+                    if out["back"] != back:
+                        ctx.disagree("rich_matrix_to_triangle(triangle_to_rich_matrix(t))", case, out["back"], back)
+                    if out["impl_matrix_back"] != back:
+                        ctx.disagree("rich_matrix_to_triangle on the implementation's own matrix", case, out["impl_matrix_back"], back)
+                    if dom["grid"]:
+                        if out["placed"] is False:
+                            ctx.fail("rich matrix: a cell is not at the position the index resolves / wrong kind of entry", case,
+                                     {"matrix": mat["ok"]})
+                        if out["nothing_else"] is False:
+                            ctx.fail("rich matrix: entries other than the cells' values and the covered missing ones", case,
+                                     {"matrix": mat["ok"]})
+                        if dom["prev"] and out["spec"] is False:
+                            ctx.fail("rich matrix round trip is not the original triangle (cells holding a value)", case,
+                                     {"loaded": back["ok"]})
+                    elif dom["mixed"] and dom["prev"] and out["mixed"] is False:
+                        ctx.fail("rich matrix round trip: the one-index-period cells do not come back as they were", case,
+                                 {"loaded": back["ok"]})
+        elif kind == "matrix_opt":
+            mat, back = impl_a, impl_b
+            mm = out["matrix"]
+            if ("err" in mm) != ("err" in mat) or ("err" in mm and mm["err"] != mat["err"]):
+                ctx.disagree("triangle_to_matrix(eval_resolution, fields) accepts/refuses (error class)", case, mm, mat)
+            elif "ok" in mm:
+                a = dict(mm["ok"])
+                a["entries"] = sorted({tuple(e[:4]): e[4] for e in a["entries"]}.items())
+                b = dict(mat["ok"])
+                b["entries"] = sorted({tuple(e[:4]): e[4] for e in b["entries"]}.items())
+                if a != b:
+                    ctx.disagree("triangle_to_matrix(eval_resolution, fields) (index, shape, entries)", case,
+                                 {k: v for k, v in a.items() if b.get(k) != v}, {k: v for k, v in b.items() if a.get(k) != v})
+                if not same(out["back"], back):
+                    ctx.disagree("matrix_to_triangle(triangle_to_matrix(t, eval_resolution, fields))", case, out["back"], back)
         else:
             mat, back = impl_a, impl_b
             if "ok" in mat:
@@ -550,22 +1284,49 @@ if __name__ == "__main__":
         correspondence=correspondence, level="translation_validation", extra_translate=translate_c14.regenerate,
         rule="CSV: random triangles, 1-4 slices each differing from the first in exactly one of the eight metadata "
              "attributes (string or numeric detail / loss-detail values, added or removed keys); cumulative all-scalar "
-             "(int/float, differing field sets, occasional size-1 array), cumulative all-sample (2-4 samples, int64/float64), "
+             "(int/float, differing field sets, occasional size-1 array), cumulative all-sample (2-4 samples, int64/float64, ragged field "
+             "sets in 60 % of the triangles), detail / limit values incl. 0 and 0.0, a share of triangles followed by their twin with "
+             "renamed detail columns, "
              "incremental scalar; regular, ragged, day-level. Array frame: regular single-slice triangles, resolutions "
              "1/3/6/12, every start month, square/triangular/ragged. Matrix: month-aligned semi-regular 1-2 slice "
              "triangles, period length 1/3/6/12, evaluations at lag multiples of 1/3/6/12 or on a half-year / year-end "
-             "grid (quarterly periods evaluated annually), complete and holey. distinct = distinct canonical input dump",
+             "grid (quarterly periods evaluated annually), complete and holey; a share with eval_resolution / fields arguments. "
+             "Rich matrix: month-aligned triangles, cumulative (Cell / CumulativeCell) and incremental, 1-3 slices, complete and "
+             "holey, periods of one length (grid) or long periods before / on top of short ones (disaggregation), values int / "
+             "float / 0 / None / sample arrays / size-1 and empty arrays, fields absent per cell, arguments eval_resolution "
+             "(None, 0, 1, 3, 6, 12) and fields (None, subsets in any order, unknown names, []). Statics frame / array frame "
+             "with all arguments / array_triangle_builder: resolutions 1/3/6/12, every start month, periods spelled as dates or "
+             "'YYYY' / 'YYYYQn' / 'YYYYHn' / 'YYYY-MM' / ISO strings, integer and non-integer column labels, explicit and "
+             "inferred resolutions, dev_lag_from_period_end. Right-edge frame: regular single-slice triangles (+ two slices, "
+             "incremental, sample arrays, ragged field sets) and its reading back as a statics frame. In-memory wide / long "
+             "data frames (no CSV) for half of the CSV triangles. chainladder: one-slice triangles, Spec only. "
+             "distinct = distinct canonical input dump",
         assumptions=["pandas CSV layer (text <-> table: dtype inference, NaN for empty, date parsing, float repr) is opaque / trusted",
                      "CSV-safe metadata: risk_basis not None, no empty strings, string detail values that do not parse as numbers/NaN, "
                      "detail and loss-detail keys disjoint from each other, from the attribute / coordinate / field names and 'scenario'",
-                     "cumulative cells all-scalar or all-sample (equal sample counts, every cell all fields when sampled); "
+                     "cumulative cells all-scalar or all-sample (equal sample counts; cells may carry different field sets, sampled ones too: D24); "
                      "incremental cells scalar; no None values; non-empty triangle",
                      "from_long_csv has no loss_detail_cols argument: loss details come back as details (stated in longSpec); "
                      "from_long_data_frame(loss_detail_cols=...) keeps them apart",
                      "numbers come back as floats; size-1 / 0-d arrays are compared as their scalar",
-                     "Matrix: cumulative triangles; development lags congruent modulo min(period, evaluation) resolution"],
+                     "Matrix: cumulative triangles; development lags congruent modulo min(period, evaluation) resolution",
+                     "Rich matrix Spec (placement, nothing else, round trip): every period ONE index period long and on the index "
+                     "grid, lags on the development grid, incremental cells with the previous evaluation date one step earlier; "
+                     "with periods of different lengths (disjoint) only the one-index-period cells are required to come back; "
+                     "overlapping long/short periods and off-grid lags: model = implementation only",
+                     "D20 (domain note, not a clause of C14): the statics reader infers period_resolution as days // 30 — 0 for "
+                     "monthly periods from February (refused), 2 for quarterly periods from 1 February of a non-leap year; such "
+                     "inputs are generated and compared with the model, without Spec",
+                     "D21 (domain note): to_long_data_frame types evaluation_date as period[D] and from_long_data_frame refuses it "
+                     "(always); to_wide_data_frame does the same to prev_evaluation_date (incremental); modelled "
+                     "(Model/FrameDF.lean), compared with the model, not reported",
+                     "D22/D23 (domain notes): chainladder round trip raises KeyError for one slice with several fields; the period "
+                     "length is whatever chainladder infers as origin grain. chainladder is third-party and NOT modelled",
+                     "statics / array frames: no NaN in a statics row; parse_date only on the documented spellings "
+                     "(pandas accepts more; '' gives NaT)"],
         trusted=["pandas read_csv / to_csv / DataFrame construction / groupby(sort, dropna=False) semantics",
                  "harness/translate_c14.py (group-by key lists observed on probe frames through a recording wrapper "
                  "around DataFrame.groupby, regenerated under the build lock each run)",
-                 "numpy float formatting"],
+                 "numpy float formatting", "numpy object arrays (rich matrix), pandas DataFrame.iterrows / rename / to_dict",
+                 "chainladder 0.8.x (opaque third-party; Spec on the round trip only)"],
     )
